@@ -287,25 +287,30 @@ namespace detail
 	template<typename genIUType>
 	GLM_FUNC_QUALIFIER genIUType bitfieldFillOne(genIUType Value, int FirstBit, int BitCount)
 	{
-		return Value | static_cast<genIUType>(mask(static_cast<genIUType>(BitCount)) << FirstBit);
+		// Shift the mask on the unsigned type: a mask of all ones is -1 in a signed type and must not be shifted
+		typedef typename detail::make_unsigned<genIUType>::type UT;
+		return Value | static_cast<genIUType>(mask(static_cast<UT>(BitCount)) << static_cast<UT>(FirstBit));
 	}
 
 	template<length_t L, typename T, qualifier Q>
 	GLM_FUNC_QUALIFIER vec<L, T, Q> bitfieldFillOne(vec<L, T, Q> const& Value, int FirstBit, int BitCount)
 	{
-		return Value | static_cast<T>(mask(static_cast<T>(BitCount)) << FirstBit);
+		typedef typename detail::make_unsigned<T>::type UT;
+		return Value | static_cast<T>(mask(static_cast<UT>(BitCount)) << static_cast<UT>(FirstBit));
 	}
 
 	template<typename genIUType>
 	GLM_FUNC_QUALIFIER genIUType bitfieldFillZero(genIUType Value, int FirstBit, int BitCount)
 	{
-		return Value & static_cast<genIUType>(~(mask(static_cast<genIUType>(BitCount)) << FirstBit));
+		typedef typename detail::make_unsigned<genIUType>::type UT;
+		return Value & static_cast<genIUType>(~(mask(static_cast<UT>(BitCount)) << static_cast<UT>(FirstBit)));
 	}
 
 	template<length_t L, typename T, qualifier Q>
 	GLM_FUNC_QUALIFIER vec<L, T, Q> bitfieldFillZero(vec<L, T, Q> const& Value, int FirstBit, int BitCount)
 	{
-		return Value & static_cast<T>(~(mask(static_cast<T>(BitCount)) << FirstBit));
+		typedef typename detail::make_unsigned<T>::type UT;
+		return Value & static_cast<T>(~(mask(static_cast<UT>(BitCount)) << static_cast<UT>(FirstBit)));
 	}
 
 	GLM_FUNC_QUALIFIER int16 bitfieldInterleave(int8 x, int8 y)
